@@ -305,17 +305,31 @@ where
         transfer: Transfer,
         payload: Payload,
     ) -> Result<Option<Disposition>, Self::Error> {
-        let (txn, txn_id) = match &transfer.state {
-            Some(DeliveryState::TransactionalState(state)) => {
-                let txn_id = &state.txn_id;
-                self.txn_manager
-                    .txns
-                    .get_mut(txn_id)
-                    .map(|txn| (txn, txn_id.clone()))
-                    .ok_or(S::Error::UnknownTxnId)?
+        let handle = transfer.handle.0;
+        let txn_id = match &transfer.state {
+            Some(DeliveryState::TransactionalState(state)) => state.txn_id.clone(),
+            Some(_) | None => {
+                // A continuation of a transactional delivery need not repeat the state
+                match self.txn_manager.incomplete_posts.get(&handle) {
+                    Some(txn_id) => txn_id.clone(),
+                    None => return self.session.on_incoming_transfer(transfer, payload).await,
+                }
             }
-            Some(_) | None => return self.session.on_incoming_transfer(transfer, payload).await,
         };
+
+        if transfer.more && !transfer.aborted {
+            self.txn_manager
+                .incomplete_posts
+                .insert(handle, txn_id.clone());
+        } else {
+            self.txn_manager.incomplete_posts.remove(&handle);
+        }
+
+        let txn = self
+            .txn_manager
+            .txns
+            .get_mut(&txn_id)
+            .ok_or(S::Error::UnknownTxnId)?;
 
         Ok(txn.on_incoming_post(txn_id, transfer, payload))
     }
